@@ -274,6 +274,44 @@ func c40Populate(rng *vrng, dir string, depth int, tag string) error {
 	return nil
 }
 
+// c40Forced applies one named edit to every second regular file (at least one): used by the corpus.
+func c40Forced(rng *vrng, src, kind string) string {
+	files, _ := c40Files(src)
+	done := 0
+	for i, f := range files {
+		fi, err := os.Lstat(f)
+		if err != nil || fi.Size() == 0 || (i%2 == 1 && done > 0) {
+			continue
+		}
+		st := fi.Sys().(*syscall.Stat_t)
+		if st.Nlink > 1 && kind != "replace-same-size-mtime-back" {
+			continue
+		}
+		switch kind {
+		case "rewrite-same-size-mtime-older", "rewrite-same-size-mtime-newer":
+			// an older / newer version of the same size put in place keeping its own timestamp
+			// (cp -p, rsync -t, tar -x): content and mtime differ from the parent, same inode
+			_ = os.WriteFile(f, rng.bytes(int(fi.Size())), 0o644)
+			d := time.Duration(1+rng.intn(5)) * time.Hour
+			if rng.bool() {
+				d = time.Duration(1 + rng.intn(999)) // nanoseconds
+			}
+			t := fi.ModTime().Add(-d)
+			if kind == "rewrite-same-size-mtime-newer" {
+				t = fi.ModTime().Add(d)
+			}
+			_ = os.Chtimes(f, t, t)
+		case "replace-same-size-mtime-back":
+			tmp := f + ".tmp"
+			_ = os.WriteFile(tmp, rng.bytes(int(fi.Size())), 0o644)
+			_ = os.Rename(tmp, f) // new inode
+			_ = os.Chtimes(f, fi.ModTime(), fi.ModTime())
+		}
+		done++
+	}
+	return fmt.Sprintf("%s(x%d)", kind, done)
+}
+
 // one edit of the source; returns a short name
 func c40Edit(rng *vrng, src string, n int) string {
 	files, dirs := c40Files(src)
@@ -284,7 +322,7 @@ func c40Edit(rng *vrng, src string, n int) string {
 		return files[rng.intn(len(files))]
 	}
 	f := pickf()
-	switch k := rng.intn(14); {
+	switch k := rng.intn(16); {
 	case k == 0 && f != "":
 		fh, err := os.OpenFile(f, os.O_APPEND|os.O_WRONLY, 0)
 		if err == nil {
@@ -354,6 +392,21 @@ func c40Edit(rng *vrng, src string, n int) string {
 		// names that sort before / between / after the existing ones
 		_ = os.WriteFile(filepath.Join(d, rng.pick("0new", "ef", "zz", "af0x")+fmt.Sprint(n)), c40Content(rng), 0o644)
 		return "add-file"
+	case (k == 14 || k == 15) && f != "":
+		fi, _ := os.Lstat(f)
+		if fi.Size() == 0 {
+			return "noop"
+		}
+		_ = os.WriteFile(f, rng.bytes(int(fi.Size())), 0o644)
+		d := time.Duration(1+rng.intn(100000)) * time.Microsecond
+		if k == 14 {
+			t := fi.ModTime().Add(-d)
+			_ = os.Chtimes(f, t, t)
+			return "rewrite-same-size-mtime-older"
+		}
+		t := fi.ModTime().Add(d)
+		_ = os.Chtimes(f, t, t)
+		return "rewrite-same-size-mtime-newer"
 	case k == 13 && f != "":
 		fi, _ := os.Lstat(f)
 		fh, err := os.OpenFile(f, os.O_APPEND|os.O_WRONLY, 0)
@@ -452,7 +505,7 @@ func c40SnapshotCount(e *venv) int {
 	return n
 }
 
-func c40Case(c *vctx, name string, rng *vrng, variant int) error {
+func c40Case(c *vctx, name string, rng *vrng, variant int, forced string, forcedFlags int) error {
 	e := newVenv(c, name)
 	if _, _, err := e.cli("init"); err != nil {
 		return err
@@ -536,6 +589,10 @@ func c40Case(c *vctx, name string, rng *vrng, variant int) error {
 	if variant%5 == 4 {
 		ne = 0 // unchanged source
 	}
+	if forced != "" {
+		ne = 0
+		edits = append(edits, c40Forced(rng, src, forced))
+	}
 	for i := 0; i < ne; i++ {
 		edits = append(edits, c40Edit(rng, src, i))
 	}
@@ -577,6 +634,9 @@ func c40Case(c *vctx, name string, rng *vrng, variant int) error {
 	case 2:
 		ii = rng.bool()
 		ic = !ii || rng.bool()
+	}
+	if forcedFlags >= 0 {
+		ii, ic = forcedFlags&2 != 0, forcedFlags&1 != 0
 	}
 	snapsBefore, err := c40ListSnaps(e)
 	if err != nil {
@@ -772,9 +832,25 @@ func engineC40(c *vctx) error {
 	c.Header("Model.C40m", "C40m.case", "C40m.check_case")
 	c.Preamble("Import C40m.")
 	rng := c.rng.fork()
-	n := c.n(15, 200)
+	// corpus: content replaced at equal size with the mtime moved back / forward, and a new inode with the
+	// old mtime, under each option set (0 = default, 1 = --ignore-ctime, 2 = --ignore-inode, 3 = both).
+	// variant 0/6/12 keep the plain scenario (no missing pack, no foreign parent).
+	corpus := []struct {
+		kind  string
+		flags int
+	}{
+		{"rewrite-same-size-mtime-older", 1}, {"rewrite-same-size-mtime-older", 2},
+		{"rewrite-same-size-mtime-newer", 3}, {"replace-same-size-mtime-back", 1},
+		{"rewrite-same-size-mtime-older", 0}, {"rewrite-same-size-mtime-older", 3},
+	}
+	for i, cc := range corpus {
+		if err := c40Case(c, fmt.Sprintf("k%d", i), rng.fork(), 12*(i+1), cc.kind, cc.flags); err != nil {
+			return err
+		}
+	}
+	n := c.n(11, 200)
 	for i := 0; i < n; i++ {
-		if err := c40Case(c, fmt.Sprintf("t%d", i), rng.fork(), i); err != nil {
+		if err := c40Case(c, fmt.Sprintf("t%d", i), rng.fork(), i, "", -1); err != nil {
 			return err
 		}
 	}
